@@ -46,6 +46,9 @@ class ExprMixin:
                 return bool(v.py)
             if v.tag in ('type', 'exc', 'module'):
                 return True
+            if v.tag in ('dropped', 'opaque'):
+                # value of a dropped object (progress/status settings): every setting is explored
+                return self.fresh_bool('dropped')
             raise Unsupported(f"truth of opaque {v!r}")
         if isinstance(v, VCallable):
             return True
@@ -178,7 +181,14 @@ class ExprMixin:
         b = self.ev(node.right, fr)
         return self.binop(node.op, a, b, fr, node)
 
+    def ev_DictComp(self, node, fr):
+        # only used for progress-bar bookkeeping in the supported functions: dropped (DESIGN 2.2)
+        return VOpaque(None, 'dropped')
+
     def binop(self, op, a, b, fr, node):
+        if (isinstance(a, VOpaque) and a.tag in ('dropped', 'opaque')) or \
+                (isinstance(b, VOpaque) and b.tag in ('dropped', 'opaque')):
+            return VOpaque(None, 'dropped')
         if isinstance(a, VOpaque) and isinstance(b, VOpaque) and a.tag == 'const' and b.tag == 'const':
             try:
                 return self.lift_const(eval(compile(ast.Expression(ast.BinOp(ast.Constant(a.py), op, ast.Constant(b.py))),
@@ -362,6 +372,8 @@ class ExprMixin:
                 return a.z == 0
             if isinstance(a, VOptInt):
                 return a.isnone
+            if isinstance(a, VSeq) and a.nullable:
+                return a.n == -1
             return False
         if isinstance(a, VRef) and isinstance(b, VRef):
             return a.z == b.z
@@ -431,6 +443,18 @@ class ExprMixin:
     def ev_Dict(self, node, fr):
         if not node.keys:
             return VOpaque('emptydict', 'emptydict')
+        if len(node.keys) == 1 and node.keys[0] is not None:
+            # {k: v} with an integer key: modelled as a sparse sequence whose cell k holds v (reads at other keys are
+            # not checked; stated in the assumptions)
+            k = self.ev(node.keys[0], fr)
+            v = self.ev(node.values[0], fr)
+            if isinstance(k, VInt):
+                if isinstance(v, VView):
+                    v = self.materialize(v)
+                s = fresh(Ty('seq', elem=type_of(v), skind='list'), self.fresh_name('dict'))
+                self.assume(s.n == k.z + 1)
+                self.assume(k.z >= 0)
+                return seq_set(s, k.z, v)
         raise Unsupported("dict literal")
 
     def ev_JoinedStr(self, node, fr):
@@ -585,8 +609,20 @@ class ExprMixin:
         return None
 
     # ------------------------------------------------------------------------------------------- subscripts
+    def seq_nonnull(self, s, fr, node, what):
+        if isinstance(s, VSeq) and s.nullable and not fr.spec:
+            self.oblige('none-deref', s.n != -1, fr, node, info=f"{what} of possibly-None sequence")
+            self.assume(s.n != -1)
+
     def norm_index(self, s, iv, fr, node, check=True):
+        self.seq_nonnull(s, fr, node, 'subscript')
         n = s.n if not isinstance(s, VTuple) else z3.IntVal(len(s.items))
+        if fr.spec:
+            # specifications index with non-negative terms; only a literal negative index wraps
+            ivs = z3.simplify(iv)
+            if z3.is_int_value(ivs) and ivs.as_long() < 0:
+                return z3.simplify(ivs + n)
+            return iv
         idx = z3.simplify(z3.If(iv < 0, iv + n, iv))
         if check and not fr.spec:
             self.oblige('index', z3.And(idx >= 0, idx < n), fr, node, info='IndexError')
@@ -640,7 +676,7 @@ class ExprMixin:
             return self.call_method(base, '__getitem__', [idx], {}, fr, node)
         if isinstance(base, VOpaque):
             if base.tag in ('dropped', 'opaque', 'module', 'emptydict'):
-                return VOpaque(None, 'opaque')
+                return VOpaque(None, 'dropped' if base.tag == 'dropped' else 'opaque')
         raise Unsupported(f"subscript of {base!r}")
 
     # ------------------------------------------------------------------------------------------- comprehensions
@@ -653,6 +689,7 @@ class ExprMixin:
     def iter_source(self, v, fr, node):
         """Turn an iterable value into a sequence value (VSeq/VView/VTuple)."""
         if isinstance(v, (VSeq, VView, VTuple)):
+            self.seq_nonnull(v, fr, node, 'iteration')
             return v
         if isinstance(v, VOpaque) and v.tag == 'emptylist':
             return VTuple([])
@@ -707,12 +744,16 @@ class ExprMixin:
             return special
         iv = self.fresh_int('ci')
         inner.noforks = True
-        self.bind_target(g.target, seq_get(src, iv), inner)
-        ev = self.ev(elt, inner)
-        if isinstance(ev, VView):
-            ety = type_of(ev)
-        else:
-            ety = type_of(ev)
+        # the body is evaluated for an arbitrary in-range index: obligations inside see the range guard, facts
+        # recorded inside are dropped again afterwards
+        saved_pc, saved_ids = list(self.pc), set(self.pc_ids)
+        self.assume(z3.And(iv >= 0, iv < src.n))
+        try:
+            self.bind_target(g.target, seq_get(src, iv), inner)
+            ev = self.ev(elt, inner)
+        finally:
+            self.pc, self.pc_ids = saved_pc, saved_ids
+        ety = type_of(ev)
         R = fresh(Ty('seq', elem=ety, skind=skind), self.fresh_name('comp'))
         R.skind = skind
         self.assume(R.n == src.n)
@@ -747,7 +788,8 @@ class ExprMixin:
             rcls = parse_type(c.returns).cls
         else:
             return None
-        if c is None or c.modifies or c.may_raise or any(v is not None for v in c.raises.values()):
+        mods = [m for m in (c.modifies if c is not None else []) if not (ctor and m.endswith('@self'))]
+        if c is None or mods or c.may_raise or any(v is not None for v in c.raises.values()):
             return None
         args, kwargs = self.eval_args(elt, inner)
         n = src.n
@@ -798,7 +840,7 @@ class ExprMixin:
             rty = parse_type(c.returns)
             if rty.cls in self.repo.classes:
                 self.assume(z3.ForAll([iv], z3.Implies(guard, self.isinstance_z(VRef(refz, None), rty.cls))))
-        for post in c.ensures:
+        for post in list(c.ensures) + list(getattr(c, 'assumed_ensures', [])):
             self.assume(z3.ForAll([iv], z3.Implies(guard, self.ev_spec(post, sf))))
         R = fresh(Ty('seq', elem=Ty('ref', cls=rcls, nullable=False), skind='list'), self.fresh_name('comp'))
         self.assume(R.n == n)
